@@ -88,8 +88,8 @@ theorem off_eq_keyOff (P : Params) (v : Nat) (f : Filter) : f.off P = keyOff P (
 def Cover (P : Params) (hf : ι → Nat → Option (Nat × Nat)) (w : World) (g : Ghost ι) : Prop :=
   ∀ key, Covers hf (keyVal w key) (keyOff P key) (g.C key) (g.S key)
 
-/-- every filter has a positive capacity -/
-def CapPos (w : World) : Prop := ∀ v f, w.filters v = some f → 0 < f.capBits
+/-- every filter has a positive capacity that is a multiple of 64 (so the bit array has no bits beyond the capacity) -/
+def CapPos (w : World) : Prop := ∀ v f, w.filters v = some f → 0 < f.capBits ∧ f.capBits % 64 = 0
 
 /-! ### frame lemmas: what `setFilter`, `setBlock`, `commit` do to `keyVal` -/
 
